@@ -145,3 +145,35 @@ Theorem C02_astral_refuted :
      values_of_bytes (concat (map (fun v : json => print_json OneLine false v ++ [10%N]) vs)) = (vs, 0%N)).
 Proof. exact parsed_roundtrip_ascii_unconditional_refuted. Qed.
 Print Assumptions C02_astral_refuted.
+
+(* the whole program: default output fed back into jawk reproduces it *)
+From Jawk Require Import Base F64 Json Reader JsonParser Stream Ctx Printer Fn Expr Chain ExprParser Go GoProofs ParsedPrintable GoFixpointProofs.
+
+(* no options, every input byte stream: success, and the events are exactly one one-line printed row per value the stream denotes (values_of_bytes), in order *)
+Theorem C02_program_rows :
+  forall (bs : list byte) (b : bool),
+    g_result (go default_cfg [(None, map EB bs)] b) = GOk /\
+    g_events (go default_cfg [(None, map EB bs)] b) =
+    map (fun v : json => OOut (print_json OneLine false v ++ [10%N])) (fst (values_of_bytes bs)).
+Proof. exact go_default_events. Qed.
+Print Assumptions C02_program_rows.
+
+(* feeding the standard output of a default run back into a default run reproduces it event for event, for every input byte stream whose values contain no astral code point (exactly known finding K1) *)
+Theorem C02_program_fixpoint :
+  forall (bs : list byte) (b : bool),
+    Forall no_astral (fst (values_of_bytes bs)) ->
+    let g1 := go default_cfg [(None, map EB bs)] b in
+    let g2 := go default_cfg [(None, map EB (stdout_of (g_events g1)))] b in
+    g_result g1 = GOk /\ g_result g2 = GOk /\ g_events g2 = g_events g1.
+Proof. exact go_default_fixpoint. Qed.
+Print Assumptions C02_program_fixpoint.
+
+(* the read loop of Master *)
+Theorem C02_loop_is_stream :
+  forall (fuel : nat) (r : reader) (fname : option str) (idx infile : N),
+    no_eerr r ->
+    io r = false ->
+    map input (fst (fst (read_ctxs fuel false r fname idx infile))) = fst (read_all fuel r) /\
+    snd (fst (read_ctxs fuel false r fname idx infile)) = snd (read_all fuel r).
+Proof. exact read_ctxs_read_all. Qed.
+Print Assumptions C02_loop_is_stream.
